@@ -1329,6 +1329,44 @@ Definition do_mcudone (h : hub) (tok : N) (ok : bool) : hub * list out :=
    bits 3 / 4 an audio / video section with port 0 ("bundle-only": the track is sent all the same) *)
 Definition eff_media (m : N) : N := N.lor (N.land m 3) (N.land (N.shiftr m 3) 3).
 
+(* the message kinds that take the path of a candidate through processMcuMessage (its default branch):
+   2 candidate, 4 answer, 7 endOfCandidates; the fake media server answers none of them *)
+Definition is_cand (mk : N) : bool := N.eqb mk 2 || N.eqb mk 4 || N.eqb mk 7.
+
+(* "sendoffer" (kind 3, hub.go processMessageMsg): the sender asks the hub to make the RECIPIENT subscribe to the
+   sender's stream.  The recipient is resolved as for any message (a session of another backend and the sender
+   itself: dropped; a virtual session: the client session it belongs to); then the sender's permission for the
+   stream type is checked (IsAllowedToSend: not_allowed); then the recipient's session gets (or already has) a
+   subscriber for (sender, stream), to which the message is handed: the media server answers with an offer, which
+   goes to the recipient as coming from the sender.  A failing creation is reported to the sender
+   (client_not_found).  There is no same-call test on this path.  A recipient that is no session of this server:
+   after the gate the request is published for "session.<id>", which nobody listens to (the driver discards that
+   publication at once, the model has none).  The parent of a virtual session is never virtual (the test is there
+   for the proofs only). *)
+Definition do_sendoffer (h : hub) (c sid : N) (s : session) (i : idref) (stream : N) : hub * list out :=
+  match i with
+  | IdPub n =>
+      match get_sess h n with
+      | Some t =>
+          if negb (N.eqb t.(s_backend) s.(s_backend)) then (h, [])
+          else if N.eqb n sid then (h, [])
+          else if negb (send_allowed s.(s_perms) stream) then (h, [ToConn c (SError E_not_allowed)])
+          else
+            let r := match t.(s_kind) with KVirtual p _ => p | _ => n end in
+            match get_sess h r with
+            | None => (h, [])
+            | Some rs =>
+                if is_virtual rs.(s_kind) then (h, [])
+                else match sub_get rs sid stream with
+                     | Some _ => send_session h r (SMedia 2 sid)
+                     | None => start_create h (mkpend 1 r stream sid 0 rs.(s_rel) 2 sid)
+                     end
+            end
+      | None => if negb (send_allowed s.(s_perms) stream) then (h, [ToConn c (SError E_not_allowed)]) else (h, [])
+      end
+  | _ => if negb (send_allowed s.(s_perms) stream) then (h, [ToConn c (SError E_not_allowed)]) else (h, [])
+  end.
+
 Definition do_media (h : hub) (c sid : N) (s : session) (to : recipient) (mk stream media0 : N) : hub * list out :=
   let media := eff_media media0 in
   match to with
@@ -1355,8 +1393,8 @@ Definition do_media (h : hub) (c sid : N) (s : session) (to : recipient) (mk str
              | Some _ => send_session h sid (SMedia 2 n)
              | None => start_create h (mkpend 1 sid stream n 0 s.(s_rel) 2 sid)
              end
-      else if N.eqb mk 2 then
-        (* candidate *)
+      else if is_cand mk then
+        (* candidate, answer, endOfCandidates *)
         if is_self then
           if negb (send_allowed s.(s_perms) stream) then (h, [ToConn c (SError E_not_allowed)])
           else match aget s.(s_pubs) stream with
@@ -1367,6 +1405,7 @@ Definition do_media (h : hub) (c sid : N) (s : session) (to : recipient) (mk str
              | Some _ => (h, [])
              | None => (h, [ToConn c (SError E_client_not_found)])
              end
+      else if N.eqb mk 3 then do_sendoffer h c sid s i stream
       else (h, [])
   | _ => (h, [])
   end.
